@@ -54,6 +54,32 @@ def run(fn):
   except Exception as e:
     return canon_exc(e)
 
+def run_fresh(fn, operands=()):
+  """like run(), plus the purity oracle of a value-returning operator: the result is a new object (not an operand, not a
+  previously returned result), so updating it in place must not change what the same operation returns next time, and the
+  operands must come back unchanged.  A breach is reported as an outcome no specification accepts."""
+  try:
+    r1 = fn()
+  except Exception as e:
+    return canon_exc(e)
+  out = canon_bits(r1)
+  if not isinstance(r1, Bits): return out
+  before = [(id(o), int(o.nbits), int(o.uint())) for o in operands if isinstance(o, Bits)]
+  for o in operands:
+    if o is r1: return f'alias result-is-operand {out}'
+  try:
+    n = int(r1.nbits)
+    r1 @= (int(r1.uint()) ^ ((1 << n) - 1))        # in-place update of the returned object
+    r1[0] = 1 - int(r1[0])
+    r2 = fn()
+  except Exception as e:
+    return f'alias second-evaluation-raised {type(e).__name__} {out}'
+  if r2 is r1: return f'alias same-object-returned-twice {out}'
+  if canon_bits(r2) != out: return f'alias result-changed-after-in-place-update-of-earlier-result {out} -> {canon_bits(r2)}'
+  after = [(id(o), int(o.nbits), int(o.uint())) for o in operands if isinstance(o, Bits)]
+  if after != before: return f'alias operand-changed {out}'
+  return out
+
 def run_int(fn):
   try:
     return f'int {int(fn())}'
